@@ -10,7 +10,15 @@ designs both pass). A request outcome is classified from the verdicts the agents
   success  executor EXECUTE/PERMIT and assessor PERMIT
   block    a BLOCK verdict (assessor BLOCK with a non-failing executor, or executor BLOCK) — intentional
   failure  an agent raised, or the executor's verdict is FAILURE (assessor not BLOCK)
-Gate logic is the default AND throughout (the quantifier fixes none).
+Gate logic is the default AND (and its documented synonym UNANIMOUS); the quantifier fixes none.
+
+The ROLE of each request is the observer's, not the implementation's: the oracle keeps its own mode
+(closed / open since the last failure outcome) from the history of observed outcomes and the reference clock.
+After `threshold` consecutive failure outcomes the breaker is open; once R has elapsed since the last failure
+outcome the first request that reaches an agent is the probe, whatever was answered from the cache in
+between; a failed probe keeps it open (isolation restarts), a successful probe or reset closes it. The
+loop's reported state is only ever *asserted*, never used to choose the case — except for the one choice
+the statement leaves open (opening between `threshold in total` and `threshold consecutive` failures).
 """
 from __future__ import annotations
 
@@ -20,17 +28,56 @@ from mc import common, explore, vclock
 
 from checks import _guardloop as G
 
-R = 10  # recovery timeout, seconds
-DELTAS = (4, 6, 9.999999, 10, 15)  # sums reach below R (4, 6, 8, R-1us), exactly R (10 and 4+6) and above R
+# recovery timeout R (seconds) -> clock advances: sums reach below R (0.4R, 0.6R, 0.8R, R-1us), exactly R (R and
+# 0.4R+0.6R) and above R. R = 0 is the falsy-but-valid timeout: every request after a trip is already a probe.
+DELTAS = {
+    10: (4, 6, 9.999999, 10, 15),
+    60: (24, 36, 59.999999, 60, 90),
+    0: (1,),
+}
 CLASSES = {
     "ok": ("EXECUTE", "PERMIT"),
+    "ok_permit": ("PERMIT", "PERMIT"),
     "ablock": ("EXECUTE", "BLOCK"),
     "eblock": ("BLOCK", "PERMIT"),
+    "bblock": ("BLOCK", "BLOCK"),
     "efail": ("FAILURE", "PERMIT"),
     "raise_e": ("raise", "PERMIT"),
     "raise_a": ("EXECUTE", "raise"),
+    "eblock_raise_a": ("BLOCK", "raise"),
+    "efail_raise_a": ("FAILURE", "raise"),
+    # exception classes / empty messages (the loop must treat every agent exception alike)
+    "raise_e_keyerr": ("raise", "PERMIT"),
+    "raise_e_stop": ("raise", "PERMIT"),
+    "raise_a_assert": ("EXECUTE", "raise"),
 }
-CACHEABLE = ("ok", "ablock", "eblock", "efail")
+EXC = {
+    "raise_e_keyerr": ("E", lambda: KeyError("")),
+    "raise_e_stop": ("E", StopIteration),
+    "raise_a_assert": ("A", AssertionError),  # what a failing bare `assert` raises: empty message
+}
+CACHEABLE = ("ok", "ablock", "eblock", "efail")  # classes whose last evaluated prompt is offered again (`repeat`)
+NO_TTL = 1e9
+# Constructor-option variants; each is crossed with every (threshold, breaker, cache) configuration.
+# R: recovery timeout; ttl: cache TTL (only meaningful with the cache on); sibling: a second loop lives in the process.
+OPTIONS = {
+    "base": {},
+    "flags": {"logic": "UNANIMOUS", "silent": False, "callbacks": True, "timeout_seconds": 0},
+    "R0": {"R": 0},
+    "ttl0": {"ttl": 0.0, "cache_only": True},  # cache enabled, every entry already expired
+    "ttl-short": {"ttl": 5.0, "cache_only": True},  # entries expire between requests (ages 0, 4, expired)
+    "sibling": {"sibling": True},
+    "rerej": {"rerej": True},  # prompts that were answered CIRCUIT_OPEN are sent again later
+    "odd": {"silent": False, "callbacks": True, "R": 0, "ttl": 0.0, "sibling": True, "rerej": True},
+    # thorough only: the flags one at a time, the constructor's default timeout, another combination
+    "unanimous": {"logic": "UNANIMOUS"},  # documented synonym of AND
+    "loud": {"silent": False},
+    "callbacks": {"callbacks": True},
+    "R60": {"R": 60},
+    "odd2": {"logic": "UNANIMOUS", "silent": False, "callbacks": True, "timeout_seconds": 0, "R": 60, "rerej": True,
+             "sibling": True},
+}
+QUICK_OPTS = ("base", "flags", "R0", "ttl0", "ttl-short", "sibling", "rerej", "odd")
 
 
 def classify(wex, was):
@@ -47,8 +94,9 @@ def classify(wex, was):
 
 
 class State:
-    __slots__ = ("root", "th", "breaker", "cache", "real", "loop", "clock", "seq", "consec", "ftotal", "t_last",
-                 "last_prompt", "last", "unrec")
+    __slots__ = ("root", "th", "breaker", "cache", "real", "opt", "R", "ttl", "loud", "repeatable", "loop", "sib",
+                 "clock", "seq", "omode", "consec", "ftotal", "t_last", "last_prompt", "cached_at", "rej_prompt",
+                 "last", "unrec", "cb")
 
 
 def _stats(loop):
@@ -62,35 +110,71 @@ class Model:
 
     def roots(self):
         ths = (1, 2, 3, 4) if self.tier == "quick" else (1, 2, 3, 4, 5)
-        return [[th, br, ca] for th in ths for br in (True, False) for ca in (True, False)]
+        out = []
+        for name in (QUICK_OPTS if self.tier == "quick" else tuple(OPTIONS)):
+            for th in ths:
+                for br in (True, False):
+                    for ca in (True, False):
+                        if OPTIONS[name].get("cache_only") and not ca:
+                            continue
+                        out.append([th, br, ca, name])
+        return out
 
     def build(self, root):
         st = State()
         st.root = root
         st.th, st.breaker, st.cache = root[0], bool(root[1]), bool(root[2])
-        st.real = len(root) > 3
+        st.real = root[3] == "real"
+        st.opt = opt = {} if st.real else OPTIONS[root[3]]
+        st.R = opt.get("R", 10)
+        st.ttl = opt.get("ttl", NO_TTL)
+        st.loud = not opt.get("silent", True)
+        # with a finite TTL every remembered prompt also carries an age: fewer classes are remembered
+        st.repeatable = CACHEABLE if st.ttl >= NO_TTL else ("ok", "efail")
         st.clock = vclock.VClock()
         vclock.use(st.clock)
         budget = root[4] if st.real else 100_000
-        st.loop = G.make_loop("AND", breaker=st.breaker, threshold=st.th, recovery=float(R), cache=st.cache,
-                              cache_ttl=1e9, budget=budget, real=st.real, cost=10)
+        st.cb = []
+        extra = {}
+        if opt.get("callbacks"):
+            extra.update(on_block=lambda r: st.cb.append("block"), on_permit=lambda r: st.cb.append("permit"))
+        if "timeout_seconds" in opt:
+            extra["timeout_seconds"] = opt["timeout_seconds"]
+        kw = dict(breaker=st.breaker, threshold=st.th, cache=st.cache, cache_ttl=st.ttl, cost=10, silent=not st.loud)
+        st.loop = G.make_loop(opt.get("logic", "AND"), recovery=float(st.R), budget=budget, real=st.real, **kw, **extra)
+        # a second loop of the same class in the same process: never recovers (no clock dimension of its own)
+        st.sib = G.make_loop(opt.get("logic", "AND"), recovery=1e9, **kw) if opt.get("sibling") else None
         st.seq = 0
+        # ---- the observer's reference, derived only from the history of calls and what they returned
+        st.omode = "closed"  # "open" from the failure outcome that opened it until a successful probe / reset
         st.consec = 0  # consecutive failure outcomes while closed
         st.ftotal = 0  # failure outcomes since creation / last clear (reset, successful probe)
         st.t_last = None  # time of the last failure outcome
-        st.last_prompt = {}
+        st.last_prompt = {}  # outcome class -> last prompt evaluated (hence legitimately cached) with that outcome
+        st.cached_at = {}
+        st.rej_prompt = None  # a fresh prompt that was answered CIRCUIT_OPEN and has never reached the agents
         st.unrec = ()  # diagnosis only: failure kinds of the current run that left count and state untouched
         st.last = ("init",)
         return st
 
     def ops(self, st):
-        classes = ["ok", "ablock", "eblock", "efail", "raise_e", "raise_a"]
-        o = [["req", c] for c in classes]
+        o = [["req", c] for c in CLASSES]
         if st.cache:
-            o += [["repeat", c] for c in CACHEABLE if c in st.last_prompt]
-        o += [["advance", d] for d in DELTAS]
-        o.append(["reset"])
+            o += [["repeat", c] for c in st.repeatable if c in st.last_prompt]
+            o.append(["clear_cache"])
+        if st.rej_prompt is not None:
+            o += [["rerej", c] for c in ("ok", "raise_e")]
+        o += [["advance", d] for d in DELTAS[st.R]]
+        o += [["reset"], ["peek"]]
+        if st.sib is not None:
+            o += [["sib", "ok"], ["sib", "raise_e"]]
         return o
+
+    def _run(self, st, loop, prompt):
+        if st.real or st.loud:
+            with G.quiet():
+                return loop.run(prompt)
+        return loop.run(prompt)
 
     # -- the step: apply to the real loop, then judge ---------------------------------------------
     def step(self, st, op):
@@ -99,15 +183,29 @@ class Model:
         kind = op[0]
         pre_state, pre_count, pre_lf = _stats(L)
         now = st.clock.now()
-        if kind == "advance":
-            st.clock.advance(op[1])
-            st.last = ("advance",)
+        if kind in ("advance", "clear_cache", "sib", "peek"):
+            # events that are not requests to this loop: they are no outcome the breaker may react to
+            if kind == "advance":
+                st.clock.advance(op[1])
+            elif kind == "clear_cache":
+                L.clear_cache()
+                st.last_prompt, st.cached_at = {}, {}
+            elif kind == "peek":  # the read-only entry points
+                L.get_statistics(), L.get_results_log(), L.get_circuit_breaker_stats()
+            else:
+                S = st.sib
+                S.executor.verdict, S.assessor.verdict = CLASSES[op[1]]
+                self._run(st, S, f"{op[1]} #{st.seq + 1}")  # the prompt the judged loop would see next
+            st.last = (kind,)
             post = _stats(L)
             if post != (pre_state, pre_count, pre_lf):
-                return [("clock-advance-changes-breaker", f"{(pre_state, pre_count)} -> {post[:2]}")]
+                name = {"advance": "clock-advance", "clear_cache": "clear-cache", "sib": "other-instance",
+                        "peek": "inspection"}[kind]
+                return [(f"{name}-changes-breaker", f"{op}: {(pre_state, pre_count)} -> {post[:2]}")]
             return []
         if kind == "reset":
             L.reset_circuit_breaker()
+            st.omode = "closed"
             st.consec = st.ftotal = 0
             st.unrec = ()
             st.last = ("reset",)
@@ -127,6 +225,10 @@ class Model:
             cls = op[1]
             prompt = st.last_prompt[cls]
             fresh = False
+        elif kind == "rerej":  # a prompt seen before, but only ever answered CIRCUIT_OPEN: nothing to serve it from
+            cls = op[1]
+            prompt = st.rej_prompt
+            fresh = True
         elif kind == "rreq":  # built-in agents: the prompt decides the verdicts
             cls = None
             prompt = op[1]
@@ -135,14 +237,14 @@ class Model:
             raise AssertionError(op)
         if not st.real:
             E.verdict, A.verdict = CLASSES[cls]
+            E.exc = A.exc = None
+            if cls in EXC:
+                who, factory = EXC[cls]
+                (E if who == "E" else A).exc = factory
         ne, na, c0 = len(E.log), len(A.log), E.calls + A.calls
         bal0 = L.budget.get_balance()
         try:
-            if st.real:
-                with G.quiet():
-                    r = L.run(prompt)
-            else:
-                r = L.run(prompt)
+            r = self._run(st, L, prompt)
         except Exception as e:  # noqa: BLE001
             st.last = ("run-raises",)
             return [(f"run-raises:{type(e).__name__}", f"run({prompt!r}) raised {type(e).__name__}: {e}")]
@@ -160,12 +262,28 @@ class Model:
             reply = "evaluated"
         okind, oname = classify(wex, was) if reply == "evaluated" else (None, None)
         st.last = (reply, okind, post_state)
-        desc = (f"threshold {st.th}, breaker {'on' if st.breaker else 'off'}, state before {pre_state} "
-                f"(failure_count {pre_count}), reply action={r.action!r} blocked={r.blocked}, agents consulted "
-                f"{consulted}x (executor {wex!r}, assessor {was!r}), ATP spent {spent}, state after {post_state} "
-                f"(failure_count {post_count})")
-        if reply == "evaluated" and st.cache and cls in CACHEABLE:
-            st.last_prompt[cls] = prompt
+        if reply == "evaluated":
+            if st.cache and cls in st.repeatable:
+                st.last_prompt[cls] = prompt
+                st.cached_at[cls] = now
+            if prompt == st.rej_prompt:
+                st.rej_prompt = None
+        elif rejected and fresh and consulted == 0 and st.opt.get("rerej"):
+            st.rej_prompt = prompt
+
+        # ---- the role of this request, from the history of outcomes and the reference clock only
+        R = st.R
+        elapsed = None if st.t_last is None else (now - st.t_last).total_seconds()
+        if not st.breaker or st.omode == "closed":
+            mode = "closed"
+        else:
+            mode = "open" if now - st.t_last < timedelta(seconds=R) else "probing"
+        desc = (f"threshold {st.th}, breaker {'on' if st.breaker else 'off'}, by the history the breaker is "
+                f"{'closed' if mode == 'closed' else 'open'} ({st.consec} consecutive / {st.ftotal} total failure "
+                f"outcomes, last failure {elapsed}s ago, R={R}s); reported state before {pre_state} (failure_count "
+                f"{pre_count}), reply action={r.action!r} blocked={r.blocked}, agents consulted {consulted}x (executor "
+                f"{wex!r}, assessor {was!r}), ATP spent {spent}, reported state after {post_state} (failure_count "
+                f"{post_count})")
 
         v = []
         if not st.breaker:
@@ -177,21 +295,8 @@ class Model:
                 st.t_last = now
             return v
 
-        # ---- breaker enabled: mode before the request, from the observed state + reference clock
-        if pre_state == "CLOSED":
-            mode = "closed"
-        elif pre_state == "HALF_OPEN":
-            mode = "probing"
-        elif pre_state == "OPEN":
-            if st.t_last is None:
-                return [("open-without-any-failure", f"breaker OPEN although no failure outcome ever happened: {desc}")]
-            mode = "open" if now - st.t_last < timedelta(seconds=R) else "probing"
-        else:
-            return [("unknown-circuit-state", desc)]
-        elapsed = None if st.t_last is None else (now - st.t_last).total_seconds()
-
         if mode == "open":
-            why = f"breaker OPEN, {elapsed}s < {R}s since the last failure: "
+            why = f"breaker open, {elapsed}s < {R}s since the last failure outcome: "
             if not (rejected and r.blocked):
                 v.append(("open-breaker-admits-request:" + ("cached-reply" if consulted == 0 else "agents-consulted"),
                           why + "expected blocked CIRCUIT_OPEN; " + desc))
@@ -201,21 +306,28 @@ class Model:
                 v.append(("open-breaker-spends-energy", why + desc))
             if post_state != "OPEN" and not v:
                 v.append(("open-breaker-state-changed", why + desc))
+            if okind == "failure":
+                st.t_last = now
             return v
 
         if mode == "probing":
-            why = f"breaker {pre_state}, {elapsed}s >= {R}s since the last failure (probe due): "
+            why = f"breaker open, {elapsed}s >= {R}s since the last failure outcome (probe due): "
             if rejected:
                 return [("probe-not-admitted", why + "request answered CIRCUIT_OPEN; " + desc)]
             if reply == "cachehit":
+                # no agent was consulted: not a probe; the first request that reaches the agents still is
                 if fresh:
                     v.append(("probe-not-admitted", why + "non-cached request reached no agent; " + desc))
+                elif post_state not in ("OPEN", "HALF_OPEN") or post_count != pre_count or post_lf != pre_lf:
+                    v.append(("cache-hit-changes-breaker:probe-due",
+                              why + "a cached reply is not a probe (no agent consulted), yet state/count/timeout changed; " + desc))
                 return v
             if okind == "success":
                 if post_state != "CLOSED":
                     v.append(("probe-success-not-closed", why + desc))
                 elif post_count != 0:
                     v.append(("probe-success-count-not-cleared", why + desc))
+                st.omode = "closed"
                 st.consec = st.ftotal = 0
                 st.unrec = ()
             elif okind == "failure":
@@ -230,12 +342,14 @@ class Model:
 
         # ---- mode closed
         if rejected:
-            return [("closed-breaker-rejects", "breaker CLOSED but request answered CIRCUIT_OPEN: " + desc)]
+            return [("closed-breaker-rejects", "no failure run opened the breaker but the request was answered CIRCUIT_OPEN: " + desc)]
         if reply == "cachehit":
             if fresh:
                 v.append(("fresh-request-not-evaluated", "non-cached request reached no agent: " + desc))
             if post_state != "CLOSED":
                 v.append(("opened-without-failure:cache-hit", desc))
+            elif post_count != pre_count:
+                v.append(("cache-hit-changes-breaker:closed", "a cached reply is no outcome, yet the failure count changed: " + desc))
             return v
         if okind == "success":
             st.consec = 0
@@ -258,19 +372,23 @@ class Model:
             if st.consec >= st.th and post_state != "OPEN":
                 # the verdict comes from the statement; the key names the failure kind(s) that left no trace
                 v.append((f"not-open-after-threshold-failures:{'+'.join(st.unrec) or oname}",
-                          f"{st.consec} consecutive failure outcomes from CLOSED >= threshold {st.th}, expected OPEN: " + desc))
+                          f"{st.consec} consecutive failure outcomes while closed >= threshold {st.th}, expected OPEN: " + desc))
+            # between `threshold failures in total` and `threshold consecutive failures` the statement leaves the
+            # choice to the implementation; it is read off the reported state at that moment, and only there
+            if st.consec >= st.th or post_state != "CLOSED":
+                st.omode = "open"
+                st.consec = st.ftotal = 0  # only meaningful while closed; cleared on every way back
+                st.unrec = ()
         else:
             if post_state != "CLOSED":
                 v.append(("opened-without-failure:other", desc))
-        if post_state != "CLOSED":
-            st.consec = st.ftotal = 0  # only meaningful while closed; cleared on every way back
-            st.unrec = ()
         return v
 
     def canon(self, st):
         vclock.use(st.clock)
         state, count, lf = _stats(st.loop)
         now = st.clock.now()
+        R = st.R
 
         def cat(t):
             if t is None:
@@ -278,15 +396,28 @@ class Model:
             e = (now - t).total_seconds()
             return e if e <= R else "gt"
 
+        def age(c):
+            if st.ttl >= NO_TTL:
+                return None
+            e = (now - st.cached_at[c]).total_seconds()
+            return e if e < st.ttl else "expired"
+
+        sib = None
+        if st.sib is not None:
+            s, c, _ = _stats(st.sib)
+            sib = (s, min(c, st.th))
         return (
             state,
             min(count, st.th),
             cat(lf) if state == "OPEN" else None,
-            cat(st.t_last) if state == "OPEN" else None,
+            st.omode,
+            cat(st.t_last) if state == "OPEN" or st.omode == "open" else None,
             min(st.consec, st.th),
             min(st.ftotal, st.th),
-            tuple(sorted(st.last_prompt)),
+            tuple(sorted((c, age(c)) for c in st.last_prompt)),
             st.unrec,
+            st.rej_prompt is not None,
+            sib,
         )
 
     def observe(self, st):
@@ -362,31 +493,48 @@ def run(ctx):
     if missing:
         ctx.note(f"binding scenarios did not witness outcome kinds {sorted(missing)} on the built-in agents")
     ctx.stats["real.steps"] = real_steps
-    ctx.sample({"root": [2, True, True], "hist": [["req", "raise_e"], ["req", "efail"], ["advance", 4], ["advance", 6]],
-                "op": ["req", "ok"]})
+    ctx.sample({"root": [2, True, True, "base"], "hist": [["req", "ok"], ["req", "raise_e"], ["req", "efail"],
+                                                          ["advance", 4], ["advance", 6], ["repeat", "ok"]],
+                "op": ["req", "efail"]})
     ctx.coverage.update(
         states=res["states"],
         transitions=res["transitions"],
         traces_validated_against_impl=res["transitions"] + real_steps,
         evaluations=res["transitions"] + real_steps,
         distinct_nontrivial=res["states"],
-        rule="BFS over histories of {request with outcome ok/assessor-block/executor-block/executor-FAILURE/"
-             "executor-raises/assessor-raises on a fresh prompt, repeat of the last cached prompt of each outcome, "
-             f"clock advance {list(DELTAS)}s (R={R}s), reset_circuit_breaker}} applied to the real loop; distinct/"
-             "non-trivial = distinct canonical state (circuit state, failure count capped at threshold, elapsed since "
-             "last failure while OPEN capped just above R, reference counters capped at threshold, cached outcome classes)",
+        rule="BFS over histories of {request on a fresh prompt with each executor/assessor answer pair of "
+             f"{sorted(CLASSES)} (three exception classes, two with an empty message), repeat of the last evaluated "
+             "prompt of a class, repeat of a prompt that was only ever answered CIRCUIT_OPEN, clear_cache, the read-only getters, clock "
+             "advance 0.4R/0.6R/R-1us/R/1.5R, reset_circuit_breaker, request to a second loop instance} applied to the "
+             "real loop, for every threshold x breaker on/off x cache on/off x option variant "
+             f"{list(QUICK_OPTS) if ctx.tier == 'quick' else list(OPTIONS)} (gate AND/UNANIMOUS, silent off, callbacks, "
+             "R in 0/10/60 s, cache TTL 0 / 5 s / none, sibling instance); the role of every request (closed / "
+             "isolated / probe / cache hit) is derived from the history of observed outcomes and the reference clock, "
+             "not from the loop's state; distinct/non-trivial = distinct canonical state (reported circuit state, "
+             "failure count capped at threshold, observer mode, elapsed since last failure while open capped just "
+             "above R, reference counters capped at threshold, remembered prompts with age class, sibling state)",
         exhaustive=bool(res["fixpoint"]),
         fixpoint=res["fixpoint"],
         depth_completed=res["depth_completed"],
         configurations=res["roots"],
-        recovery_timeout_s=R,
+        recovery_timeouts_s=sorted(DELTAS),
+        option_variants=list(QUICK_OPTS) if ctx.tier == "quick" else list(OPTIONS),
+        outcome_classes=len(CLASSES),
         real_agent_steps=real_steps,
     )
     if not res["fixpoint"]:
         ctx.coverage["caps_hit"] = f"depth {depth} completed with {res['frontier_left']} frontier states left"
     ctx.assumptions += [
-        "gate logic AND only; failure = agent exception or executor FAILURE verdict; intentional block = BLOCK verdict",
-        "a cache hit is neither a success nor a failure; cache hits while a probe is due are not constrained",
+        "gate logic AND and its documented synonym UNANIMOUS only; failure = agent exception or executor FAILURE "
+        "verdict; intentional block = BLOCK verdict; executor FAILURE together with assessor BLOCK is left out (both)",
+        "a request answered without consulting an agent (cache hit) is no outcome: neither success nor failure nor "
+        "probe; it must leave the breaker as it is (state apart from the lazy OPEN->HALF_OPEN step, count, timeout)",
+        "between `threshold failures in total` and `threshold consecutive failures` the implementation may open or "
+        "not: the observer reads that one choice off the reported state right after the failure outcome",
+        "clock advances, clear_cache, the read-only getters and requests to another loop instance are no outcomes of this loop: they must "
+        "not change its reported breaker state",
+        "not explored (outside the quantifier's outcome alphabet): agents answering None / unknown action types, "
+        "non-AND gate logics, toggling enable_circuit_breaker after construction, threshold <= 0",
         "'consecutive failures' is read weakly: any non-failure request outcome in between restarts the run",
         "canonical state drops monotone audit counters (success_count, trips_count, totals, results log) and the "
         "budget balance (100000 ATP, never exhausted within the depth bound)",
